@@ -30,7 +30,11 @@ InitSt == [inst |-> FALSE, nop |-> FALSE, t |-> Empty, cmt |-> ""]
 \*  t       : the table afterwards, read through a raw cursor, as a bag of payload classes
 Obs(res, results, n, st2) == [res |-> res, results |-> results, n |-> n, t |-> st2.t, cmt |-> st2.cmt]
 
-IsStmt(it) == it.k \in {"ins", "sel", "fail", "cmton", "cmtset"}
+IsStmt(it) == it.k \in {"ins", "sel", "fail", "cmton", "cmtset", "status"}
+\* "call": CALL foo() inside a script - a statement that matches nop_regexes when the option is on (answered with the status
+\* row, nothing executed) and cannot run otherwise (it fails like any failing statement); comments next to it are not part of it
+Eff(it, nop) == IF it.k = "call" THEN [k |-> IF nop THEN "status" ELSE "fail"] ELSE it
+EffItems(items, nop) == [j \in 1..Len(items) |-> Eff(items[j], nop)]
 CmtOf(it, c) == IF it.k = "cmton" THEN "c1" ELSE IF it.k = "cmtset" THEN "c2" ELSE c
 \* the comment after running items (up to the first failure) from comment c
 RECURSIVE RunCmt(_, _)
@@ -43,14 +47,15 @@ Run(items, b, acc) ==
        IF ~IsStmt(it) THEN Run(Tail(items), b, acc)                       \* comments / empty statements are ignored
        ELSE IF it.k = "fail" THEN <<b, acc, TRUE>>                        \* stop at the first failure, prefix applied
        ELSE IF it.k = "ins" THEN Run(Tail(items), Add(b, it.p), Append(acc, 1))
-       ELSE IF it.k \in {"cmton", "cmtset"} THEN Run(Tail(items), b, Append(acc, -1))      \* a status row, no count
+       ELSE IF it.k \in {"cmton", "cmtset", "status"} THEN Run(Tail(items), b, Append(acc, -1))      \* a status row, no count
        ELSE Run(Tail(items), b, Append(acc, SumSeq(b)))
 
 Steps(st, op, D) ==
   CASE op.k = "inst" -> LET s2 == [st EXCEPT !.inst = TRUE, !.nop = op.nop] IN {R(s2, Obs("ok", <<>>, -1, s2))}
     [] op.k = "script" ->
-         LET r == Run(op.items, st.t, <<>>)
-             s2 == [st EXCEPT !.t = r[1], !.cmt = RunCmt(op.items, st.cmt)] IN
+         LET items == EffItems(op.items, st.nop)
+             r == Run(items, st.t, <<>>)
+             s2 == [st EXCEPT !.t = r[1], !.cmt = RunCmt(items, st.cmt)] IN
          IF r[3] THEN \* a failing statement: execute_string raises (no cursor is handed out); one-by-one saw the prefix results
               {R(s2, Obs("err", IF op.via = "string" THEN <<>> ELSE r[2], -1, s2))}
          ELSE {R(s2, Obs("ok", r[2], IF op.via = "string" THEN Len(r[2]) ELSE -1, s2))}
@@ -69,7 +74,7 @@ Steps(st, op, D) ==
 
 \* ---- vocabulary ----
 CONSTANTS MaxItems, PayloadsUsed, DataScripts, NopUsed
-Items == [k : {"ins"}, p : PayloadsUsed] \cup [k : {"sel", "fail", "lc", "bc", "empty", "ws"}]
+Items == [k : {"ins"}, p : PayloadsUsed] \cup [k : {"sel", "fail", "lc", "bc", "empty", "ws", "call"}]
 \* empty: with nop = FALSE, whether the instance is made with nop_regexes = [] (an empty pattern set matches nothing) or None;
 \* rc: the remove_comments argument of execute_string (comments are not statements either way)
 CmtItems == [k : {"cmton", "cmtset"}]
